@@ -1,15 +1,14 @@
 #!/bin/bash
-# Builds the verification framework from files on disk only (offline) and pre-warms the build cache.
+# Builds the verification framework from files on disk only (offline) and pre-warms the build cache
+# (every check rebuilds from /repo's current sources when it runs; this just makes that fast).
 set -eu
 cd "$(dirname "$0")"
 export GOFLAGS=-mod=mod GOPROXY=off GOSUMDB=off GOTOOLCHAIN=local CARGO_NET_OFFLINE=true PIP_NO_INDEX=1
 export GOCACHE="${GOCACHE:-$PWD/.build/gocache}"
 mkdir -p .build bin evidence
-go build ./internal/...
-for d in props/*/; do
-  lc=$(basename "$d")
-  if [ -f "$d/main.go" ]; then
-    go build -tags verif -o "bin/$lc" "./props/$lc"
-  fi
+go build ./internal/... ./mc/... ./cmd/...
+( cd rewriter && go build -o ../bin/gomc-rewrite . )
+for id in $(jq -r '.checks[].property_id' MANIFEST.json); do
+  ./check "$id" --build || { echo "setup: build of $id failed" >&2; exit 1; }
 done
 echo setup ok
